@@ -655,6 +655,14 @@ mod tests {
     }
 
     #[test]
+    fn procedure_calls_where_the_name_ends_with_parenthesis() {
+        check_statement("foo(0 to 1);");
+        check_statement("lbl: foo(0 to 1);");
+        check_statement("postponed foo(0 to 1);");
+        check_statement("foo(0 to 1)(clk);");
+    }
+
+    #[test]
     fn blocks() {
         check_statement(
             "\
